@@ -372,7 +372,7 @@ def _export_cases(draw, tier):
     for s in shapes:
         s["nu"] = ((s["nu"] - 1) // k) * k + 1 if (s["nu"] - 1) >= k else k + 1
         s["nv"] = ((s["nv"] - 1) // k) * k + 1 if (s["nv"] - 1) >= k else k + 1
-    return {"shapes": shapes, "k": k, "fmt": draw(st.sampled_from(["obj", "off", "stl", "stlb"]))}
+    return {"shapes": shapes, "k": k, "fmt": draw(st.sampled_from(["obj", "off", "stl", "stlb", "vtk"]))}
 
 
 def _fresh(case):
@@ -384,8 +384,52 @@ def _fresh(case):
     return objs
 
 
+def _check_vtk(case, ctx):
+    """VTK polydata (geomdl.exchange_vtk) with tessellate=True: the sampled points with the triangles of the default tessellation,
+    or the control points with the quads of the control net; members of a container follow one another."""
+    from geomdl import exchange_vtk
+    objs = _fresh(case)
+    target = objs[0] if len(objs) == 1 else build.container(multi.SurfaceContainer, objs, case["shapes"][0]["nu"] + case["shapes"][0]["nv"])
+    ctx.nt(len(objs) >= 2, "container>=2")
+    ctx.nt(any(s["nu"] != s["nv"] for s in case["shapes"]), "nu!=nv")
+    ctx.label("format:vtk")
+    ctx.label("surfaces:%d" % len(objs))
+    for ptype, arity in (("evalpts", 3), ("ctrlpts", 4)):
+        polys = []          # expected polygons as coordinate tuples, in export order
+        npts = 0
+        for o in _fresh(case):
+            if ptype == "evalpts":
+                o.tessellate()
+                vs, fs = [list(v.data) for v in o.vertices], [list(f.data) for f in o.faces]
+            else:
+                t = tessellate.QuadTessellate()
+                t.tessellate(o.ctrlpts, size_u=o.ctrlpts_size_u, size_v=o.ctrlpts_size_v)
+                vs, fs = [list(v.data) for v in t.vertices], [list(f.data) for f in t.faces]
+            npts += len(vs)
+            polys += [[vs[i] for i in f] for f in fs]
+        what = "vtk polydata (%s, tessellate=True) of %d surface(s)" % (ptype, len(objs))
+        text = exchange_vtk.export_polydata_str(target, point_type=ptype, tessellate=True)
+        lines = text.split("\n")
+        ip = next(i for i, l in enumerate(lines) if l.startswith("POINTS "))
+        n = int(lines[ip].split()[1])
+        V = [[float(x) for x in l.split()] for l in lines[ip + 1:ip + 1 + n]]
+        ig = next(i for i, l in enumerate(lines) if l.startswith("POLYGONS "))
+        nf, nints = int(lines[ig].split()[1]), int(lines[ig].split()[2])
+        Fs = [[int(x) for x in l.split()] for l in lines[ig + 1:ig + 1 + nf]]
+        ctx.check(n == npts and nf == len(polys) and nints == (arity + 1) * nf, "export-counts",
+                  "%s: %d points, %d polygons (%d integers); expected %d / %d" % (what, n, nf, nints, npts, len(polys)))
+        for f, poly in zip(Fs, polys):
+            ctx.check(f[0] == arity and len(f) == arity + 1 and all(0 <= i < n for i in f[1:]), "export-index-range", "%s: polygon line %r" % (what, f))
+            if all(0 <= i < n for i in f[1:]):
+                got = [V[i] for i in f[1:]]
+                ctx.check(all(all(abs(x - y) <= 1e-12 * (1.0 + abs(y)) for x, y in zip(g, t)) for g, t in zip(got, poly)), "export-face-coordinates",
+                          "%s: polygon %r resolves to %r, expected %r" % (what, f, got, poly))
+
+
 def check_exports(case, ctx):
     k, fmt = case["k"], case["fmt"]
+    if fmt == "vtk":
+        return _check_vtk(case, ctx)
     # reference meshes from independent fresh objects
     refs = []
     for o in _fresh(case):
